@@ -13,6 +13,8 @@ package comp
 //   fbits b         the double with IEEE bits b
 //   getval n s      GetValue of {number n, scale s}
 //   dur z           the duration z*100ms           durns ns   the duration ns nanoseconds
+//   dtext ns        the text NewDurationType writes for ns nanoseconds (Spine.DurText.render), then dparse of it
+//   dparse text     period.Parse / GetTimeDuration of a duration text (Spine.DurText.parse; any ASCII text without blanks)
 //   instant s off   the instant s seconds after the Unix epoch, presented in a zone off seconds east
 //   instantns s ns  the same with a fraction of a second (rounded to the second by the code)
 //   date s / tod s  the calendar date / time of day of that instant through DateType / TimeType
@@ -27,6 +29,7 @@ import (
 	"math"
 	"math/big"
 	"math/rand"
+	"regexp"
 	"runtime"
 	"sort"
 	"strconv"
@@ -456,7 +459,10 @@ func numOneDur(s *numStats, dr *h.Driver, z int64) {
 		if err != nil || back%hundredMs != 0 {
 			impl = fmt.Sprintf("%s error-or-fraction %v %v", fields, back, err)
 		}
-		if want := dr.Ask(op); want != impl {
+		if want := dr.Ask(op); want == "range" {
+			s.skipped++ // the library's signed months field is negative: outside Spine.Dur (inside the known finding)
+			s.evals["dur:negative-months-outside-model"]++
+		} else if want != impl {
 			s.mismatch(op, impl, want, "years months days hours minutes tenths back(100ms)")
 		}
 	}
@@ -479,10 +485,257 @@ func numOneDurNs(s *numStats, dr *h.Driver, ns int64) {
 		if err != nil {
 			impl = "error " + err.Error()
 		}
-		if want := dr.Ask(op); want != impl {
+		if want := dr.Ask(op); want == "range" {
+			s.skipped++
+			s.evals["dur:negative-months-outside-model"]++
+		} else if want != impl {
 			s.mismatch(op, impl, want, "duration read back, ns")
 		}
 	}
+}
+
+// ---------------------------------------------------------------- durations at the level of the text (Spine.DurText)
+
+// isoDuration is an independent reader of the ISO 8601 duration text (not the library's parser): the
+// value a peer would read, with a day of 24 h, a week of 7 days, years and months refused.
+var isoDuration = regexp.MustCompile(`^(-?)P(?:(\d+)W)?(?:(\d+)D)?(?:T(?:(\d+)H)?(?:(\d+)M)?(?:(\d+)(?:\.(\d))?S)?)?$`)
+
+func isoDurationValue(text string) (time.Duration, bool) {
+	m := isoDuration.FindStringSubmatch(text)
+	if m == nil || text == "P" || text == "-P" || strings.HasSuffix(text, "T") {
+		return 0, false
+	}
+	n := func(i int) int64 {
+		if m[i] == "" {
+			return 0
+		}
+		v, err := strconv.ParseInt(m[i], 10, 64)
+		if err != nil || v > 1000000 {
+			return -1 << 40
+		}
+		return v
+	}
+	tenths := (((n(2)*7+n(3))*24+n(4))*60+n(5))*600 + n(6)*10 + n(7)
+	if tenths < 0 {
+		return 0, false
+	}
+	d := time.Duration(tenths) * hundredMs
+	if m[1] == "-" {
+		d = -d
+	}
+	return d, true
+}
+
+// numOneDurText: the text of NewDurationType(ns) against Spine.DurText.render, what the text denotes for an
+// independent reader (SPEC: a duration below 3277 days is written as a text that denotes it, to 100 ms),
+// then the way back through numOneDurParse.
+func numOneDurText(s *numStats, dr *h.Driver, ns int64) {
+	op := fmt.Sprintf("dtext %d", ns)
+	d := time.Duration(ns)
+	text := string(*model.NewDurationType(d))
+	kind := "durtext:clock-fields-only"
+	switch {
+	case strings.ContainsAny(text, "Y"):
+		kind = "durtext:years-months"
+	case strings.Contains(text, "W"):
+		kind = "durtext:weeks"
+	case strings.Contains(text, "D") && text != "P0D":
+		kind = "durtext:days"
+	case text == "P0D":
+		kind = "durtext:zero"
+	}
+	s.evals[kind]++
+	if absD(d) < days3277 {
+		trunc := d / hundredMs * hundredMs
+		if v, ok := isoDurationValue(text); !ok || v != trunc {
+			s.fail("C19/duration-text-denotes-other", absI(ns/int64(hundredMs)), op, fmt.Sprintf("duration %v is written as %q, which an ISO 8601 reader takes as %v (readable %v)", d, text, v, ok))
+		}
+	}
+	if dr != nil {
+		if want := dr.Ask(op); want == "range" {
+			s.skipped++ // months field of period.NewOf negative (mixed-sign period): outside the model, inside the known finding
+			s.evals["durtext:negative-months-outside-model"]++
+			if ip := strings.IndexByte(text, 'P'); absD(d) < days3277 || ip < 0 || !strings.Contains(text[ip:], "-") {
+				s.mismatch(op, text, want, "the model declares a duration outside its domain that the library writes as an ordinary text")
+			}
+		} else if want != text {
+			s.mismatch(op, text, want, "text written by NewDurationType")
+		}
+		numOneDurParse(s, dr, text)
+	}
+}
+
+// numOneDurParse: GetTimeDuration of an arbitrary duration text (what a peer may send) and the
+// normalised period the library reads, against Spine.DurText.parse / approxNs / render.
+func numOneDurParse(s *numStats, dr *h.Driver, text string) {
+	if text == "" || strings.ContainsAny(text, " \t\r\n") {
+		return
+	}
+	for i := 0; i < len(text); i++ {
+		if text[i] >= 0x80 {
+			return // the model is about ASCII texts
+		}
+	}
+	op := "dparse " + text
+	want := dr.Ask(op)
+	if want == "range" {
+		s.skipped++
+		s.evals["durparse:outside-model"]++
+		return
+	}
+	dt := model.DurationType(text)
+	back, err := dt.GetTimeDuration()
+	impl := "err"
+	if err == nil {
+		p, perr := period.Parse(text)
+		impl = fmt.Sprintf("%d %s", int64(back), p.String())
+		if perr != nil {
+			impl = "GetTimeDuration accepts, period.Parse refuses: " + perr.Error()
+		}
+		s.evals["durparse:accepted"]++
+	} else {
+		s.evals["durparse:refused"]++
+	}
+	if want != impl {
+		s.mismatch(op, impl, want, "GetTimeDuration in ns and the normalised period, or err")
+	}
+}
+
+// numRandomDurText draws a duration text: mostly well-formed (fields in order, small and large numbers,
+// weeks, a fraction in the last or in any field, dot or comma, either sign), sometimes damaged.
+func numRandomDurText(rng *rand.Rand) string {
+	num := func(frac bool) string {
+		var v int64
+		switch rng.Intn(10) {
+		case 0:
+			v = 0
+		case 1, 2:
+			v = rng.Int63n(40000)
+		case 3:
+			v = rng.Int63n(1000000000000)
+		default:
+			v = rng.Int63n(75)
+		}
+		t := strconv.FormatInt(v, 10)
+		if rng.Intn(12) == 0 {
+			t = "0" + t
+		}
+		if frac {
+			sep := "."
+			if rng.Intn(4) == 0 {
+				sep = ","
+			}
+			t += sep + strconv.Itoa(rng.Intn(10))
+			if rng.Intn(5) == 0 {
+				t += strconv.Itoa(rng.Intn(100))
+			}
+		}
+		return t
+	}
+	type fld struct {
+		des  byte
+		time bool
+	}
+	all := []fld{{'Y', false}, {'M', false}, {'W', false}, {'D', false}, {'H', true}, {'M', true}, {'S', true}}
+	var use []fld
+	for _, f := range all {
+		if rng.Intn(3) == 0 {
+			use = append(use, f)
+		}
+	}
+	if len(use) == 0 {
+		use = append(use, all[rng.Intn(len(all))])
+	}
+	damaged := rng.Intn(10) < 3
+	if damaged && rng.Intn(3) == 0 {
+		rng.Shuffle(len(use), func(i, j int) { use[i], use[j] = use[j], use[i] })
+	}
+	if damaged && rng.Intn(4) == 0 {
+		use = append(use, use[rng.Intn(len(use))])
+	}
+	var sb strings.Builder
+	switch rng.Intn(12) {
+	case 0, 1:
+		sb.WriteByte('-')
+	case 2:
+		sb.WriteByte('+')
+	}
+	sb.WriteByte('P')
+	inTime := false
+	anyFrac := rng.Intn(12) == 0
+	for i, f := range use {
+		if f.time && !inTime {
+			sb.WriteByte('T')
+			inTime = true
+		}
+		frac := (i == len(use)-1 && rng.Intn(4) == 0) || (anyFrac && rng.Intn(2) == 0)
+		sb.WriteString(num(frac))
+		sb.WriteByte(f.des)
+	}
+	t := sb.String()
+	if damaged {
+		b := []byte(t)
+		switch rng.Intn(8) {
+		case 0:
+			b = b[:len(b)-1] // digits without designator
+		case 1:
+			b = append(b, 'T')
+		case 2:
+			i := rng.Intn(len(b))
+			b[i] = "XPT.,-+0Z:"[rng.Intn(10)]
+		case 3:
+			i := rng.Intn(len(b))
+			b = append(b[:i], b[i+1:]...)
+		case 4:
+			b = append([]byte{"-+pT1"[rng.Intn(5)]}, b...)
+		case 5:
+			i := rng.Intn(len(b) + 1)
+			b = append(b[:i], append([]byte{"T.,MS9"[rng.Intn(6)]}, b[i:]...)...)
+		}
+		t = string(b)
+	}
+	if t == "" {
+		t = "P"
+	}
+	return t
+}
+
+// numDurTextGrid: every subset of the seven designators in the order of the grammar, with six patterns of
+// numbers each (all whole; the last with a fraction; all zero; large; rippling; all with a fraction).
+func numDurTextGrid() []string {
+	des := []byte("YMWDHMS")
+	pats := [][2]string{{"2", "2"}, {"2", "2.5"}, {"0", "0"}, {"3277", "3276"}, {"61", "1445"}, {"1.5", "1.5"}}
+	var out []string
+	for mask := 1; mask < 128; mask++ {
+		for _, pat := range pats {
+			for _, sign := range []string{"", "-"} {
+				var sb strings.Builder
+				sb.WriteString(sign + "P")
+				last := 0
+				for i := 0; i < 7; i++ {
+					if mask&(1<<i) != 0 {
+						last = i
+					}
+				}
+				for i := 0; i < 7; i++ {
+					if mask&(1<<i) == 0 {
+						continue
+					}
+					if i >= 4 && !strings.Contains(sb.String(), "T") {
+						sb.WriteByte('T')
+					}
+					v := pat[0]
+					if i == last {
+						v = pat[1]
+					}
+					sb.WriteString(v)
+					sb.WriteByte(des[i])
+				}
+				out = append(out, sb.String())
+			}
+		}
+	}
+	return out
 }
 
 // ---------------------------------------------------------------- instants (monitor only; glue theorems in Props/C19)
@@ -1105,6 +1358,13 @@ func numRunOp(s *numStats, dr *h.Driver, op string) {
 		numOneDur(s, dr, arg(1))
 	case "durns":
 		numOneDurNs(s, dr, arg(1))
+	case "dtext":
+		numOneDurText(s, dr, arg(1))
+	case "dparse":
+		if len(f) != 2 {
+			panic("bad op " + op)
+		}
+		numOneDurParse(s, dr, f[1])
 	case "instant":
 		numOneInstant(s, arg(1), int(arg(2)))
 	case "instantns":
@@ -1385,6 +1645,9 @@ func TestNumeric(t *testing.T) {
 		"dur 117935999", "dur 117936000", "dur 117972000", "dur 115956000", "dur 115920000", // 3276 h, 3277 h; 3220.5 h (the parser's ripple)
 		"dur 2831327999", "dur 2831328000", "dur -2831328000", "dur 2831328001", // 3277 days - 100 ms, 3277 days
 		"durns 150000000", "durns -1", "durns 99999999", "durns 3600000000001",
+		"dtext 0", "dtext 5990000000", "dtext -5990000000", "dtext 604800000000000", "dtext 11793600000000000", "dtext 283132799900000000", "dtext 283132800000000000", "dtext -50000000", "dtext 9223372036854775807", "dtext 8583573421155919265", "dtext 3250454086230841373", "dtext -4291753169893406838", "durns 8583573421155919265", "dparse -P-272Y1M-30DT-21H",
+		"dparse PT3276H", "dparse PT3220H30M", "dparse P1Y2M3W4DT5H6M7.8S", "dparse P1.5Y2M", "dparse P1.5Y2.5M", "dparse PT1H1H", "dparse P1W1D", "dparse P1DT", "dparse P", "dparse -P0D", "dparse P0", "dparse -P0",
+		"dparse PT90M", "dparse P40000D", "dparse P4000D", "dparse PT1,55S", "dparse PT.5S", "dparse PT5.S", "dparse P1T1H", "dparse PT1HT1M", "dparse P1H", "dparse PT1D", "dparse P1", "dparse 1D", "dparse +P1D", "dparse P3277Y", "dparse P3276.7Y", "dparse P300Y",
 		"instant 0 0", "instant -62135596800 0", "instant 253402300799 0", "instant 1727352000 7200", "instant 951782400 -34200",
 		"instantns 0 500000000", "instantns 1727352000 499999999", "instantns -62135596800 1",
 		"date 0", "date -62135596800", "date 253402300799", "date 951782400", "tod 0", "tod 86399", "tod 43200",
@@ -1560,11 +1823,14 @@ func TestNumeric(t *testing.T) {
 	us := numParallel(args, len(durJobs), func(s *numStats, dr *h.Driver, i int) {
 		j := durJobs[i]
 		for _, sign := range []int64{1, -1} {
-			line := fmt.Sprintf("drange %d %d %d", j.z0, j.z1, j.step)
+			// dtrange: digest over the TEXT of every duration and what it is read back as (Spine.DurText);
+			// the field-level model Spine.Dur is compared on the single values below and, for all durations,
+			// by theorem (c19_duration_text_refines_fields)
+			line := fmt.Sprintf("dtrange %d %d %d", j.z0, j.z1, j.step)
 			if sign < 0 {
 				// the negative range, ascending: -z1' .. -z0 where z1' is the last value reached
 				last := j.z0 + (j.z1-j.z0)/j.step*j.step
-				line = fmt.Sprintf("drange %d %d %d", -last, -j.z0, j.step)
+				line = fmt.Sprintf("dtrange %d %d %d", -last, -j.z0, j.step)
 			}
 			ans := make(chan string, 1)
 			go func() { ans <- dr.AskWithin(line, numRangeTimeout) }()
@@ -1582,6 +1848,9 @@ func TestNumeric(t *testing.T) {
 				x := int64(back / hundredMs)
 				if err != nil || back%hundredMs != 0 {
 					x = math.MinInt64
+				}
+				for i := 0; i < len(*sdt); i++ {
+					hh = numMix(hh, uint64((*sdt)[i]))
 				}
 				hh = numMix(hh, uint64(x))
 				cnt++
@@ -1601,9 +1870,10 @@ func TestNumeric(t *testing.T) {
 				q := newNumStats()
 				for z := j.z0; z <= j.z1 && q.mismN == 0; z += j.step {
 					numOneDur(q, dr, sign*z)
+					numOneDurText(q, dr, sign*z*int64(hundredMs))
 				}
 				if q.mismN == 0 {
-					s.mismatch(line, want, got, "digest of durations read back differs but no single value does")
+					s.mismatch(line, want, got, "digest of duration texts and durations read back differs but no single value does")
 				}
 				s.mismN += q.mismN
 				s.mism = append(s.mism, q.mism...)
@@ -1641,6 +1911,45 @@ func TestNumeric(t *testing.T) {
 		}
 		numOneDurNs(bs, d, ns)
 	}
+	// the textual level: texts written (boundaries, random, geometric to 292 years), texts a peer may send
+	// (the exhaustive grid of designator subsets, random well-formed and damaged texts)
+	ts := newNumStats()
+	for _, c := range []int64{0, 600, 36000, 7 * day, 70 * day, 3220 * 36000, 32204 * 3600, 32205 * 3600, 3276 * 36000, 3277 * 36000, 400 * day, 3276 * day, 3277 * day, 3283 * day} {
+		for dz := int64(-3); dz <= 3; dz++ {
+			numOneDurText(ts, d, (c+dz)*int64(hundredMs))
+			numOneDurText(ts, d, -(c+dz)*int64(hundredMs))
+		}
+	}
+	for i := 0; i < h.Scale(20000, 200000); i++ {
+		var ns int64
+		switch rng.Intn(4) {
+		case 0:
+			ns = rng.Int63n(3277*day) * int64(hundredMs)
+		case 1:
+			ns = rng.Int63n(3277 * day * int64(hundredMs)) // with a fraction of 100 ms
+		case 2:
+			ns = rng.Int63n(3277) * day * int64(hundredMs) // whole days (weeks every seventh)
+		default:
+			ns = rng.Int63n(math.MaxInt64) // up to 292 years
+		}
+		if rng.Intn(2) == 0 {
+			ns = -ns
+		}
+		numOneDurText(ts, d, ns)
+	}
+	grid := numDurTextGrid()
+	for _, tx := range grid {
+		numOneDurParse(ts, d, tx)
+	}
+	nTxt := h.Scale(30000, 300000)
+	for i := 0; i < nTxt; i++ {
+		numOneDurParse(ts, d, numRandomDurText(rng))
+	}
+	acc, ref := ts.evals["durparse:accepted"], ts.evals["durparse:refused"]
+	ts.flush(r)
+	r.Floor("duration texts the library accepts", acc, acc+ref, 0.4)
+	r.Floor("duration texts the library refuses", ref, acc+ref, 0.05)
+	r.Info["duration_text"] = fmt.Sprintf("texts written by NewDurationType compared byte for byte with Spine.DurText.render on the dense sweep (digest) and on single values up to 292 years; period.Parse/GetTimeDuration compared with Spine.DurText.parse on every written text, on the grid of %d designator-subset texts and on %d random texts (accepted %d, refused %d, outside the model %d)", len(grid), nTxt, acc, ref, ts.evals["durparse:outside-model"])
 	durFails := map[string]int{}
 	for k, v := range bs.fails {
 		durFails[k] = v
